@@ -18,3 +18,155 @@ Theorem C04_cols_to_slice_is_source : forall l : list Z, l <> [] ->
   cols_to_slice (of_zlist l) = of_slice (cols_to_slice_t l).
 Proof. exact cols_to_slice_refines. Qed.
 Print Assumptions C04_cols_to_slice_is_source.
+
+Require Import SF.Select Proofs.SelectFacts Proofs.SelectExtract.
+
+(* THE 2-D SELECTION.  Frame._extract as the code runs it -- TypeBlocks._extract (integer-column fast path,
+   or _key_to_block_slices + per-block NumPy slicing + the single_row re-shaping + from_blocks), the
+   extraction of both indices, and the Frame / Series / element decision tree on the resulting shape --
+   returns, for EVERY block layout, every row key and every column key, exactly what the specification
+   says on the flattened frame: the cells at (row position, column position) for the key's positions in
+   key order, each with its own row and column label, a scalar key removing its axis; the same error
+   class otherwise.  Guards: the column key does not repeat a position (through the public interface a
+   repeated column raises ErrorInitIndex; Refuted/C04.v shows the block walk is wrong there), and
+   extract_dom excludes the known finding C04-empty-columns-row-subset. *)
+Theorem C04_extract_refines : forall (A L : Type) (leqb : L -> L -> bool) (rdt : list dtype -> dtype)
+  (f : mframe A L) (rk ck : ckey),
+  wf_mframe leqb f ->
+  key_nodup ck (Z.of_nat (length (flatten (mf_blocks f)))) ->
+  extract_dom (mf_rows f) (Z.of_nat (length (flatten (mf_blocks f)))) rk ck = true ->
+  M_extract leqb rdt f rk ck = S_extract leqb rdt (abs_frame f) rk ck.
+Proof. exact @extract_refines. Qed.
+Print Assumptions C04_extract_refines.
+
+Require Import SF.Value SF.SelectDt Gen.Gen_util Proofs.SelectLoc Proofs.SelectIncl Proofs.SelectSpec.
+
+(* WHAT THE SPECIFICATION SAYS, cell by cell.  A selection with two non-scalar keys is a Frame whose cell
+   (i, j) is the cell of the source at (i-th position of the row key, j-th position of the column key),
+   whose i-th row label / j-th column label are the source's labels at those positions (key order,
+   original labels), column dtypes kept, name kept. *)
+Theorem C04_extract_exact : forall (A L : Type) (leqb : L -> L -> bool) (rdt : list dtype -> dtype)
+  (f : sframe A L) (rp cp : list Z) (r : xres A L),
+  S_extract_sel leqb rdt f (SMany rp) (SMany cp) = Ok r ->
+  exists ridx cidx data,
+    r = XFrame ridx cidx data (sf_name f) /\
+    length ridx = length rp /\ length cidx = length cp /\ length data = length cp /\
+    (forall i p, nth_error rp i = Some p -> nth_error ridx i = nth_z (sf_index f) p /\ nth_z (sf_index f) p <> None) /\
+    (forall j q, nth_error cp j = Some q ->
+       nth_error cidx j = nth_z (sf_columns f) q /\ nth_z (sf_columns f) q <> None /\
+       exists d col v, nth_z (sf_cols f) q = Some (d, col) /\ nth_error data j = Some (d, v) /\
+                       length v = length rp /\
+                       forall i p, nth_error rp i = Some p -> nth_error v i = cell f p q /\ cell f p q <> None).
+Proof. exact @extract_exact. Qed.
+Print Assumptions C04_extract_exact.
+
+(* A scalar key removes its axis: both scalar -> the element; scalar row -> a Series over the selected
+   columns named by the row label; scalar column -> a Series over the selected rows named by the column
+   label and keeping the column's dtype; every value still the addressed cell with its label. *)
+Theorem C04_scalar_reduces : forall (A L : Type) (leqb : L -> L -> bool) (rdt : list dtype -> dtype)
+  (f : sframe A L) (i j : Z) (rp cp : list Z),
+  (forall r, S_extract_sel leqb rdt f (SOne i) (SOne j) = Ok r -> exists a, r = XElem a /\ cell f i j = Some a) /\
+  (forall r, S_extract_sel leqb rdt f (SOne i) (SMany cp) = Ok r ->
+     exists cidx vals dt name, r = XSeries cidx vals dt name /\ nth_z (sf_index f) i = Some name /\
+       length cidx = length cp /\ length vals = length cp /\
+       forall k q, nth_error cp k = Some q ->
+         nth_error cidx k = nth_z (sf_columns f) q /\ nth_error vals k = cell f i q /\ cell f i q <> None) /\
+  (forall r, S_extract_sel leqb rdt f (SMany rp) (SOne j) = Ok r ->
+     exists ridx vals dt name col, r = XSeries ridx vals dt name /\ nth_z (sf_columns f) j = Some name /\
+       nth_z (sf_cols f) j = Some (dt, col) /\ length ridx = length rp /\ length vals = length rp /\
+       forall k p, nth_error rp k = Some p ->
+         nth_error ridx k = nth_z (sf_index f) p /\ nth_error vals k = cell f p j /\ cell f p j <> None).
+Proof. exact @scalar_reduces. Qed.
+Print Assumptions C04_scalar_reduces.
+
+(* LABEL SELECTION = POSITIONAL SELECTION AT THE LABEL POSITIONS.  For an index with a dictionary
+   (LocMap.loc_to_iloc: label, list, inclusive slice, Boolean array, Boolean Series reindexed with False,
+   ILoc) the positional key the code builds denotes exactly the positions the specification assigns to
+   the label key; same error otherwise.  Guard lkey_dom: not (negative step with a stop label) -- known
+   finding C04-label-slice-negative-step. *)
+Theorem C04_loc_map_refines : forall (L : Type) (leqb : L -> L -> bool),
+  (forall x y, leqb x y = true <-> x = y) ->
+  forall (labels : list L) (k : lkey L), lkey_dom k ->
+  (ck <- M_loc_map leqb labels k;; ckey_sel ck (Z.of_nat (length labels))) = S_loc leqb labels k.
+Proof. exact @loc_map_refines. Qed.
+Print Assumptions C04_loc_map_refines.
+
+(* The auto-integer index (loc_is_iloc fast path, with the regenerated slice_to_inclusive_slice): right
+   exactly when every integer the key names is a label (auto_dom) -- known finding
+   C04-autoindex-unvalidated-int otherwise. *)
+Theorem C04_loc_auto_refines : forall (L : Type) (leqb : L -> L -> bool),
+  (forall x y, leqb x y = true <-> x = y) ->
+  forall (as_z : L -> option Z) (of_z : Z -> L),
+  (forall z, as_z (of_z z) = Some z) -> (forall x z, as_z x = Some z -> x = of_z z) ->
+  forall (n : nat) (k : lkey L), auto_dom as_z n k ->
+  (ck <- M_loc_auto leqb as_z (auto_labels of_z n) k;; ckey_sel ck (Z.of_nat n)) = S_loc leqb (auto_labels of_z n) k.
+Proof. exact @loc_auto_refines. Qed.
+Print Assumptions C04_loc_auto_refines.
+
+(* the typed kernel the auto-index model uses IS util.slice_to_inclusive_slice (regenerated every run) ... *)
+Theorem C04_inclusive_slice_is_source : forall (k : slice) (off : Z),
+  slice_to_inclusive_slice (of_slice k) (PInt off) = of_slice (incl_typed k off).
+Proof. exact incl_typed_refines. Qed.
+Print Assumptions C04_inclusive_slice_is_source.
+
+(* ... and it includes the stop: positions a .. b with b selected *)
+Theorem C04_inclusive_slice_includes_stop : forall a b n : Z, 0 <= a -> a <= b -> b < n ->
+  exists ps, positions (incl_typed (mk_slice (Some a) (Some b) None) 0) n = Some ps /\
+             In b ps /\ (forall p, In p ps <-> a <= p <= b).
+Proof. exact inclusive_slice_includes_stop. Qed.
+Print Assumptions C04_inclusive_slice_includes_stop.
+
+(* label slices include their stop label: exactly the positions from the start label's through the stop
+   label's, every step-th *)
+Theorem C04_label_slice_inclusive : forall (L : Type) (leqb : L -> L -> bool),
+  (forall x y, leqb x y = true <-> x = y) ->
+  forall (labels : list L) (a b : L) (st : option Z) (pa pb : Z) (ps : list Z),
+  find_pos leqb a labels 0 = Some pa -> find_pos leqb b labels 0 = Some pb ->
+  (match st with Some s => 0 < s | None => True end) ->
+  S_loc leqb labels (LSlice (Some a) (Some b) st) = Ok (SMany ps) ->
+  let s := match st with Some s => s | None => 1 end in
+  (forall p, In p ps <-> pa <= p <= pb /\ (p - pa) mod s = 0) /\
+  (pa <= pb -> (pb - pa) mod s = 0 -> In pb ps).
+Proof. exact @label_slice_inclusive. Qed.
+Print Assumptions C04_label_slice_inclusive.
+
+(* an absent label raises a lookup error -- as a single label, inside a list, as a slice end -- in the
+   specification and in the dictionary model alike *)
+Theorem C04_absent_label_raises : forall (L : Type) (leqb : L -> L -> bool),
+  (forall x y, leqb x y = true <-> x = y) ->
+  forall (labels : list L) (x : L), ~ In x labels ->
+  S_loc leqb labels (LLabel x) = Err "KeyError" /\
+  M_loc_map leqb labels (LLabel x) = Err "KeyError" /\
+  (forall xs, In x xs -> S_loc leqb labels (LList xs) = Err "KeyError" /\ M_loc_map leqb labels (LList xs) = Err "KeyError") /\
+  (forall b st, S_loc leqb labels (LSlice (Some x) b st) = Err "KeyError" /\
+                M_loc_map leqb labels (LSlice (Some x) b st) = Err "KeyError").
+Proof. exact @absent_label_raises. Qed.
+Print Assumptions C04_absent_label_raises.
+
+(* Boolean Series keys are aligned by label (not by position); labels the Series lacks count as False *)
+Theorem C04_bool_series_aligned : forall (L : Type) (leqb : L -> L -> bool),
+  (forall x y, leqb x y = true <-> x = y) ->
+  forall (labels : list L) (ps : list (L * bool)),
+  exists qs, S_loc leqb labels (LBoolSeries ps) = Ok (SMany qs) /\
+    (forall i, In i qs <-> exists l, nth_z labels i = Some l /\ assoc_bool leqb l ps = true) /\
+    increasing qs.
+Proof. exact @bool_series_aligned. Qed.
+Print Assumptions C04_bool_series_aligned.
+
+(* datetime indices: a key of a coarser unit selects every label inside that period, and only those *)
+Theorem C04_period_select : forall (labels : list val) (u : tunit) (c : Z),
+  exists ps, S_loc_dt labels (DPeriod u c) = Ok (SMany ps) /\
+    (forall i, In i ps <-> exists l, nth_z labels i = Some l /\ in_period u c l = true) /\
+    increasing ps.
+Proof. exact period_select. Qed.
+Print Assumptions C04_period_select.
+
+Require Import Gen.Gen_c04 Proofs.SelectDecision.
+
+(* the Frame / Series / which-index / which-name decision inside M_extract IS the source text of
+   Frame._extract (frame.py:3823-3869), regenerated on every run: a change to that chain (a swapped axis,
+   another shape test, another values expression) breaks this theorem before any case is run *)
+Theorem C04_decision_is_source : forall (r c : Z) (nm0 nm1 : bool),
+  extract_decision r c nm0 nm1 = extract_decision_src r c nm0 nm1.
+Proof. exact decision_is_source. Qed.
+Print Assumptions C04_decision_is_source.
